@@ -148,6 +148,8 @@ void set_on_uncaught(const std::function<void(int, const std::string &)> &f);  /
 // generic blocking
 void block_on(int kind, long obj);           // current task blocks until wake(kind,obj)
 void wake(int kind, long obj);               // all waiters on (kind,obj) become runnable
+int wake_one(int kind, long obj);            // one waiter on (kind,obj), picked by the scheduler (a recorded choice), becomes runnable; returns its id or -1
+int choose(int n);                           // a recorded scheduler choice in [0,n): replayable like a task choice
 void join_task(int task);                    // block until task is done/dead
 [[noreturn]] void exit_task();
 
